@@ -112,6 +112,15 @@ class Run:
             return b
         return (b, 0)
 
+    def recv_is_this(self, o):
+        """the receiver of a call is the current object: this / *this, or a reference parameter bound to it"""
+        if _is_this(o):
+            return True
+        o = strip_lv(o)
+        while o.get('k') in ('paren', 'cast'):
+            o = strip_lv(o['e'])
+        return o.get('k') == 'var' and self.vars.get(o.get('id')) == ('THIS',)
+
     def bind_ref(self, sub, g, p_, a):
         """reference parameter p_ of callee g bound to argument expression a: when a designates an element of a buffer (or a
         boxed variable) the parameter names that storage; -> True if bound"""
@@ -1104,9 +1113,9 @@ class Run:
             if name in self.call_ptrs and not e.get('a'):
                 return self.call_ptrs[name]
             m = self.methods.get(name)
-            if m is None and self.methods.get('*') == 'interp' and (e.get('obj') is None or _is_this(e['obj'])):
+            if m is None and self.methods.get('*') == 'interp' and (e.get('obj') is None or self.recv_is_this(e['obj'])):
                 m = 'interp'            # every member of the current object is interpreted from its body
-            if m is not None and (e.get('obj') is None or _is_this(e['obj'])):
+            if m is not None and (e.get('obj') is None or self.recv_is_this(e['obj'])):
                 args = [self.val(a) for a in e.get('a', [])]
                 if callable(m):
                     return m(self, e, args)
@@ -1156,7 +1165,14 @@ class Run:
                 continue
             if self.bind_ref(sub, g, p_, a):
                 continue
-            sub.vars[p_['id']] = wrap(self.val(a), T(g, p_['t']))
+            av = self.val(a)
+            if av == ('THIS',):
+                # the current object handed to a helper (`nextCut(*this, sep, i)`): members called on that parameter are
+                # members of the same object
+                sub.mems, sub.methods, sub.call_ptrs, sub.ignore = self.mems, self.methods, self.call_ptrs, self.ignore
+                sub.strobjs |= self.strobjs
+                sub.listsinks = self.listsinks
+            sub.vars[p_['id']] = wrap(av, T(g, p_['t']))
         return sub.run()
 
     # ------------------------------------------------------------ statements
